@@ -220,11 +220,15 @@ type Rat struct {
 	Num, Den *Poly
 }
 
-func RatOf(p *Poly) Rat        { return Rat{p, IntPoly(1)} }
-func RatInt(n int64) Rat       { return RatOf(IntPoly(n)) }
-func RatVar(name string) Rat   { return RatOf(VarPoly(name)) }
-func (a Rat) Add(b Rat) Rat    { return Rat{a.Num.Mul(b.Den).Add(b.Num.Mul(a.Den)), a.Den.Mul(b.Den)}.reduce() }
-func (a Rat) Sub(b Rat) Rat    { return Rat{a.Num.Mul(b.Den).Sub(b.Num.Mul(a.Den)), a.Den.Mul(b.Den)}.reduce() }
+func RatOf(p *Poly) Rat      { return Rat{p, IntPoly(1)} }
+func RatInt(n int64) Rat     { return RatOf(IntPoly(n)) }
+func RatVar(name string) Rat { return RatOf(VarPoly(name)) }
+func (a Rat) Add(b Rat) Rat {
+	return Rat{a.Num.Mul(b.Den).Add(b.Num.Mul(a.Den)), a.Den.Mul(b.Den)}.reduce()
+}
+func (a Rat) Sub(b Rat) Rat {
+	return Rat{a.Num.Mul(b.Den).Sub(b.Num.Mul(a.Den)), a.Den.Mul(b.Den)}.reduce()
+}
 func (a Rat) Mul(b Rat) Rat    { return Rat{a.Num.Mul(b.Num), a.Den.Mul(b.Den)}.reduce() }
 func (a Rat) Div(b Rat) Rat    { return Rat{a.Num.Mul(b.Den), a.Den.Mul(b.Num)}.reduce() }
 func (a Rat) Neg() Rat         { return Rat{a.Num.Neg(), a.Den} }
